@@ -111,7 +111,7 @@ def sample_observer(rng, s):
     if reg == "coincidence_near":
         r1, r2, hh, p1, p2 = s["dimension"]
         which = str(rng.choice(["phi", "r", "z"]))
-        eps = 10.0 ** rng.uniform(-3, -1) * rng.choice([-1, 1])
+        eps = 10.0 ** rng.uniform(-6, -1) * rng.choice([-1, 1])
         ph = np.deg2rad(rng.uniform(p1, p2) if rng.random() < 0.5 else rng.uniform(p2, p1 + 360))
         r = rng.uniform(0.05, 2.5) * r2
         z = rng.uniform(-1.5, 1.5) * hh
@@ -338,8 +338,9 @@ def check_case(ctx, case, only=None):
                 if s["cls"] in ("Cylinder", "CylinderSegment"):
                     ro = s["dimension"][1] if s["cls"] == "CylinderSegment" else s["dimension"][0] / 2
                     near_axis = bool(np.hypot(pl[0], pl[1]) < 0.1 * ro)
+                near_co = bool(s["cls"] == "CylinderSegment" and G.cylseg_coincidence_dist(s, pl[None])[0] < 1e-3)
                 ctx.violation({"kind": "field!=first-principles", "cls": s["cls"], "field": F, "region": reg,
-                               "near_axis_r<0.1r2": near_axis},
+                               "near_axis_r<0.1r2": near_axis, **({"near_coincidence<1e-3": True} if near_co else {})},
                               {"source": s, "observers": [case["observers"][i]], "regions": [reg],
                                **({"companion": case["companion"]} if case.get("companion") else {})},
                               {"lib": lib, "ref": ref, "err": d, "allowed": allowed, "local": pl, "oracle": info,
